@@ -1247,7 +1247,12 @@ func TestC44(t *testing.T) {
 		if rapid.IntRange(0, 3).Draw(rt, "canon") == 0 {
 			c44CanonHash(rt, c)
 		}
+		if g.have() && rapid.IntRange(0, ev.Scale(20, 10)).Draw(rt, "sympub") == 0 {
+			c44GPGSymPub(rt, g, p, c)
+		}
 	})
+
+	c44SKESKMatrix(t, c)
 
 	c44Directed(t, c, p, g)
 }
